@@ -201,3 +201,157 @@ def intersect_witness(a: NFA, b: NFA):
 def not_subset_witness(a: NFA, b: NFA):
     """Witness in L(a) \\ L(b), or None when L(a) is a subset of L(b)."""
     return product_search(a, b, lambda x, y: x and not y)
+
+
+def regex_nfa(pattern: str) -> NFA:
+    """Thompson construction for the small regex dialect of the contract clauses (engine/regex.py syntax:
+    literals, classes with ranges, groups, alternation, * + ? {m} {m,n}, escapes \\d)."""
+    nfa = NFA()
+    pos = [0]
+
+    def peek():
+        return pattern[pos[0]] if pos[0] < len(pattern) else None
+
+    def eat():
+        c = pattern[pos[0]]
+        pos[0] += 1
+        return c
+
+    def frag_chars(ranges):
+        a, b = nfa.new(), nfa.new()
+        for lo, hi in ranges:
+            nfa.add(a, lo, hi, b)
+        return a, b
+
+    def alt():
+        frs = [seq()]
+        while peek() == "|":
+            eat()
+            frs.append(seq())
+        if len(frs) == 1:
+            return frs[0]
+        a, b = nfa.new(), nfa.new()
+        for s, e in frs:
+            nfa.add_eps(a, s)
+            nfa.add_eps(e, b)
+        return a, b
+
+    def seq():
+        a = nfa.new()
+        cur = a
+        while peek() is not None and peek() not in "|)":
+            s, e = quant()
+            nfa.add_eps(cur, s)
+            cur = e
+        return a, cur
+
+    def copy_frag(build):
+        return build()
+
+    def quant():
+        start = pos[0]
+        s, e = atom()
+        end = pos[0]
+        while peek() is not None and peek() in "*+?{":
+            c = eat()
+            if c == "{":
+                j = pattern.index("}", pos[0])
+                body = pattern[pos[0]:j]
+                pos[0] = j + 1
+                lo, hi = (body.split(",") + [None])[:2] if "," in body else (body, body)
+                lo = int(lo or 0)
+                hi = None if hi == "" else int(hi)
+                # rebuild the atom (lo..hi) times by re-parsing its source text
+                src = pattern[start:end]
+
+                def one():
+                    save = pos[0]
+                    pos[0] = start
+                    r = atom()
+                    pos[0] = save
+                    return r
+
+                a = nfa.new()
+                cur = a
+                for _ in range(lo):
+                    s2, e2 = one()
+                    nfa.add_eps(cur, s2)
+                    cur = e2
+                if hi is None:
+                    s2, e2 = one()
+                    nfa.add_eps(cur, s2)
+                    nfa.add_eps(e2, cur)
+                else:
+                    endst = nfa.new()
+                    nfa.add_eps(cur, endst)
+                    for _ in range(hi - lo):
+                        s2, e2 = one()
+                        nfa.add_eps(cur, s2)
+                        cur = e2
+                        nfa.add_eps(cur, endst)
+                    cur = endst
+                s, e = a, cur
+            elif c == "*":
+                a, b = nfa.new(), nfa.new()
+                nfa.add_eps(a, s); nfa.add_eps(e, s); nfa.add_eps(a, b); nfa.add_eps(e, b)
+                s, e = a, b
+            elif c == "+":
+                b = nfa.new()
+                nfa.add_eps(e, s); nfa.add_eps(e, b)
+                e = b
+            elif c == "?":
+                nfa.add_eps(s, e)
+        return s, e
+
+    def atom():
+        c = eat()
+        if c == "(":
+            if peek() == "?":
+                eat(); eat()
+            r = alt()
+            eat()
+            return r
+        if c == "[":
+            neg = False
+            if peek() == "^":
+                eat(); neg = True
+            rs = []
+            first = True
+            while True:
+                ch = eat()
+                if ch == "]" and not first:
+                    break
+                first = False
+                if ch == "\\":
+                    ch = eat()
+                    if ch == "d":
+                        rs.append((48, 57)); continue
+                if peek() == "-" and pattern[pos[0] + 1] != "]":
+                    eat()
+                    hi = eat()
+                    rs.append((ord(ch), ord(hi)))
+                else:
+                    rs.append((ord(ch), ord(ch)))
+            if neg:
+                out, cur = [], 0
+                for lo, hi in sorted(rs):
+                    if cur <= lo - 1:
+                        out.append((cur, lo - 1))
+                    cur = max(cur, hi + 1)
+                if cur <= 127:
+                    out.append((cur, 127))
+                rs = out
+            return frag_chars(rs)
+        if c == ".":
+            return frag_chars([(0, 9), (11, 127)])
+        if c == "\\":
+            e = eat()
+            if e == "d":
+                return frag_chars([(48, 57)])
+            return frag_chars([(ord(e), ord(e))])
+        return frag_chars([(ord(c), ord(c))])
+
+    s, e = alt()
+    nfa.add_eps(nfa.start, s)
+    nfa.accept = {e}
+    return nfa
